@@ -137,14 +137,16 @@ void oracle_c06_retry(World &w, const History &h)
   // Judged only in histories without injected socket faults and server-list edits (the TCP attempt may then
   // legitimately fail or move).
   {
-    bool clean = !(w.cfg->flags & ARES_FLAG_IGNTC);
+    bool clean = true;
     for (auto &e : h)
       if (e.k == EV_FAULT || e.k == EV_SETSERVERS || e.k == EV_CANCEL || e.k == EV_DESTROY) clean = false;
     if (clean)
       for (auto &p : w.packets) {
-        if (p.forged || p.kind != RK_TC || p.seq_read < 0 || p.for_tx < 0) continue;
+        if (p.forged || (p.kind != RK_TC && p.kind != RK_FORMERR_NOOPT) || p.seq_read < 0 || p.for_tx < 0) continue;
         const Transmission &ptx = w.txs[(size_t)p.for_tx];
-        if (ptx.tcp || !ptx.q.ok || ptx.q.has_cookie) continue; // with a cookie in play a cookie-less answer may be dropped by the RFC 7873 rules (C17)
+        if (!ptx.q.ok || ptx.q.has_cookie) continue; // with a cookie in play a cookie-less answer may be dropped by the RFC 7873 rules (C17)
+        if (p.kind == RK_TC && (ptx.tcp || (w.cfg->flags & ARES_FLAG_IGNTC))) continue;
+        if (p.kind == RK_FORMERR_NOOPT && !ptx.q.has_opt) continue; // only an EDNS query is downgraded
         const Transmission *cur = nullptr;
         if (!looked_at(w, p, &cur)) continue;
         // a request may consist of several queries (dual-family lookup): whether THIS query was still alive when the
@@ -169,6 +171,19 @@ void oracle_c06_retry(World &w, const History &h)
             cands++;
           }
         if (cands != 1 || !(owner->count == 0 || owner->seq_done > p.seq_read)) continue;
+        if (p.kind == RK_FORMERR_NOOPT) {
+          // one EDNS downgrade: the next transmission of this query carries no OPT record
+          const Transmission *nxt = nullptr;
+          for (auto &t : w.txs)
+            if (t.q.ok && t.q.id == ptx.q.id && t.seq > p.seq_read && (!nxt || t.seq < nxt->seq)) nxt = &t;
+          if (!nxt)
+            w.violate("C06:mandated:formerr-without-edns-downgrade", fmt("query id %u read FORMERR without OPT (packet #%d) for an EDNS query but was never re-sent", ptx.q.id, p.serial));
+          else if (nxt->q.has_opt)
+            w.violate("C06:mandated:formerr-without-edns-downgrade", fmt("query id %u read FORMERR without OPT (packet #%d) but its next transmission tx#%d still carries an OPT record", ptx.q.id, p.serial, nxt->id));
+          else
+            w.W("c06_edns_downgrade_seen");
+          continue;
+        }
         bool tcp_follows = false;
         for (auto &t : w.txs)
           if (t.q.ok && t.q.id == ptx.q.id && t.tcp && t.seq > p.seq_read) tcp_follows = true;
